@@ -18,6 +18,7 @@ import (
 	"encoding/json"
 	"fmt"
 	"log/slog"
+	"runtime"
 	"strings"
 	"testing"
 	"time"
@@ -42,8 +43,30 @@ func TestGovcReplay(t *testing.T) {
 		}
 		return a
 	}
-	for _, conf := range []slog.Level{slog.LevelDebug, slog.LevelInfo, slog.LevelError} {
-		opts := &slog.HandlerOptions{Level: conf, ReplaceAttr: noTime}
+	// drops the built-in attributes: a record without attributes renders as
+	// an empty line
+	dropBuiltins := func(groups []string, a slog.Attr) slog.Attr {
+		if len(groups) == 0 && (a.Key == slog.TimeKey || a.Key == slog.LevelKey || a.Key == slog.MessageKey) {
+			return slog.Attr{}
+		}
+		return a
+	}
+	var pcs [1]uintptr
+	runtime.Callers(1, pcs[:])
+	optsList := []*slog.HandlerOptions{
+		{Level: slog.LevelDebug, ReplaceAttr: noTime},
+		{Level: slog.LevelInfo, ReplaceAttr: noTime},
+		{Level: slog.LevelError, ReplaceAttr: noTime},
+		{Level: slog.LevelInfo, ReplaceAttr: noTime, AddSource: true},
+		{ReplaceAttr: dropBuiltins},
+		{AddSource: true},
+		nil,
+	}
+	for _, opts := range optsList {
+		conf := slog.LevelInfo
+		if opts != nil && opts.Level != nil {
+			conf = opts.Level.Level()
+		}
 		for _, chain := range [][]int{{}, {1}, {1, 2}, {2, 1}} {
 			out := &bytes.Buffer{}
 			var h slog.Handler = slogutil.NewJSONHybridHandler(out, opts)
@@ -68,7 +91,7 @@ func TestGovcReplay(t *testing.T) {
 						cases++
 						out.Reset()
 						ref.Reset()
-						r := slog.NewRecord(time.Time{}, lvl, msg, 0)
+						r := slog.NewRecord(time.Time{}, lvl, msg, pcs[0])
 						r.AddAttrs(extra...)
 						if err := h.Handle(context.Background(), r); err != nil {
 							report("Handle: %%v", err)
@@ -110,7 +133,7 @@ func c19Bounded(eng *Engine, tier string, seed int64) *BoundedResult {
 	out := runHarness(repoDir(), filepath.Join(repoDir(), "logutil", "slogutil"), strings.ReplaceAll(c19TestSrc, "%%", "%"))
 	res := &BoundedResult{
 		What:  "every record of the enumeration handled by a JSONHybridHandler (through chains of WithAttrs, next to a sibling with other attributes) yields exactly one newline-terminated JSON object with the two members severity (ERROR for levels >= Error, else NORMAL) and message, the message being the line a slog.TextHandler with the same options and attributes prints; Enabled(l) iff l >= the configured level",
-		Bound: "3 configured levels x 4 WithAttrs chains x 6 record levels x 6 messages (quotes, backslash, newline, HTML characters, empty) x 3 attribute sets; one goroutine",
+		Bound: "7 option sets (3 configured levels, AddSource with a real program counter, a ReplaceAttr that drops the built-in attributes so that a bare record renders as an empty line, nil options) x 4 WithAttrs chains x 6 record levels x 6 messages (quotes, backslash, newline, HTML characters, empty) x 3 attribute sets; one goroutine",
 	}
 	parseBounded(out, res)
 	return res
